@@ -199,6 +199,65 @@ def mk_rrset(r):
     return rr
 
 
+class HarnessAbort(BaseException):
+    """not an Exception: what a KeyboardInterrupt-like condition in the middle of an item looks like"""
+
+
+def _boom_rdata(rdclass, rdtype, exc, tag):
+    class BoomRdata(dns.rdata.GenericRdata):
+        __slots__ = []
+
+        def _to_wire(self, file, compress=None, origin=None, canonicalize=False):
+            file.write(b"\xde\xad")          # (a few octets of the RDATA are out before it goes wrong)
+            if not canonicalize:                # (hashing and comparing go through the canonical form and must work)
+                raise exc("injected by the harness")
+    return BoomRdata(rdclass, rdtype, b"boom" + tag)
+
+
+class BoomName(dns.name.Name):
+    __slots__ = []
+
+    def to_wire(self, file=None, compress=None, origin=None, canonicalize=False):
+        raise ValueError("injected by the harness")
+
+
+BOOM_EXC = {"rd-ValueError": ValueError, "rd-TypeError": TypeError, "rd-OverflowError": OverflowError, "rd-HarnessAbort": HarnessAbort}
+
+
+def apply_boom(rr, spec):
+    """turn the well-formed rrset `rr` into one whose rendering raises a non-DNS exception in the middle of the item:
+    returns (rrset, expected exception class)"""
+    how, at = spec["how"], spec.get("at", 0)
+    if how == "ttl-neg":
+        rr.ttl = -7                                   # an expired cache entry: struct.error when the TTL is packed
+        return rr, struct.error
+    if how == "ttl-big":
+        rr.ttl = 2 ** 32 + 5
+        return rr, struct.error
+    if how == "owner-ValueError":
+        new = dns.rrset.RRset(BoomName(rr.name.labels), rr.rdclass, rr.rdtype, rr.covers, rr.deleting)
+        new.update_ttl(rr.ttl)
+        for rd in rr:
+            new.add(rd)
+        return new, ValueError
+    exc = BOOM_EXC[how]
+    new = dns.rrset.RRset(rr.name, rr.rdclass, rr.rdtype, rr.covers, rr.deleting)
+    new.update_ttl(rr.ttl)
+    rds = list(rr)
+    at = min(at, len(rds))
+    for j, rd in enumerate(rds[:at]):
+        new.add(rd)
+    new.add(_boom_rdata(rr.rdclass, rr.rdtype, exc, bytes([at])))
+    for rd in rds[at:]:
+        new.add(rd)
+    return new, exc
+
+
+def without_boom(c):
+    """the case without the rrsets marked to fail: what the renderer must be left with — and what the model is given"""
+    return dict(c, sections=[[r for r in sec if "boom" not in r] for sec in c["sections"]])
+
+
 def mk_message(c):
     """the dnspython message of a case; returns (message, key-or-None)"""
     m = new_message(c["flags"], c["id"])
@@ -877,6 +936,23 @@ def eval_steps(ctx: Ctx, c: dict):
             if stop:
                 break
             snap_add = (r.output.getvalue(), dict(r.compress), list(r.counts))
+            spec = c["sections"][sec][i].get("boom")
+            if spec is not None:
+                # a non-DNS exception in the middle of the item; the caller skips it (the model is given the message without it)
+                rrb, want = apply_boom(rr, spec)
+                got = None
+                try:
+                    r.add_rrset(sec, rrb, want_shuffle=False)
+                except BaseException as e:  # noqa: BLE001
+                    got = type(e)
+                ctx.count("steps.boom." + spec["how"])
+                now = (r.output.getvalue(), dict(r.compress), list(r.counts))
+                if got is not want or now != snap_add or r.output.tell() != len(snap_add[0]):
+                    fail(ctx, "C03/renderer/partial-record-after-exception",
+                         f"an add that raised {None if got is None else got.__name__} (injected {want.__name__}, {spec['how']}) left {len(now[0]) - len(snap_add[0])} octets and "
+                         f"{len(now[1]) - len(snap_add[1])} compression entries of the unfinished record behind", c)
+                    return
+                continue
             try:
                 if sec == 0:
                     if qdef and rr.rdclass == 1:
@@ -919,7 +995,7 @@ def eval_steps(ctx: Ctx, c: dict):
     r.write_header()
     w = r.get_wire()
     tbl = ";".join(f"{enc_labels(k.labels)}@{v}" for k, v in r.compress.items())
-    ctx.corr(f"c03.steps {ms} {'-' if edns is None else edns} {msg_tokens(c)}", f"ok {' '.join(tr)} out={hx(w)} tbl={tbl}", c)
+    ctx.corr(f"c03.steps {ms} {'-' if edns is None else edns} {msg_tokens(without_boom(c))}", f"ok {' '.join(tr)} out={hx(w)} tbl={tbl}", c)
     ctx.count("steps")
     ctx.count("steps.route." + route)
     if stop:
@@ -1672,6 +1748,15 @@ def gen_rollback(rng, variant):
         c["sections"][3].append(rr(hexl([b"relative"]), 1, [raw(4)]))
         if rng.chance(2, 3):
             c["ctor"], c["max_size"] = "defaults", 65535
+    elif rng.chance(1, 6):
+        # … or a non-DNS exception in the middle of an item whose owner a later rrset shares
+        how = rng.choice(["ttl-neg", "ttl-big", "rd-ValueError", "rd-TypeError", "rd-OverflowError", "rd-HarnessAbort", "owner-ValueError"])
+        boom = rr(nm(b"cache", *B), 15, [{"k": "m", "p": 10 + j, "n": nm(b"mx%d" % j, b"cache", *B)} for j in range(1 + rng.below(3))])
+        boom["boom"] = {"how": how, "at": rng.below(len(boom["rdatas"]) + 1)}
+        sb = rng.choice([1, 2, 3])
+        c["sections"][sb].insert(0 if sb > 1 else len(fills) + 1, boom)
+        c["sections"][rng.choice([x for x in (1, 2, 3) if x >= sb])].append(rr(nm(b"cache", *B), 1, [raw(4)]))
+        c["max_size"] = max(c["max_size"], 65535 if rng.chance(1, 2) else c["max_size"])
     elif origin is None and rng.chance(1, 10):
         # … or a relative name inside the RDATA, after the owner (and possibly a first record) has been written
         rds = [{"k": "n", "n": nm(b"ns1", *B)}, {"k": "n", "n": hexl([b"relative-target"])}][rng.below(2):]
